@@ -180,7 +180,7 @@ else:
                 mapping[arg.value] = arg
                 mapping[arg.name] = arg
             elif isinstance(arg, bytes):
-                mapping[binascii.hexlify(arg)] = arg
+                mapping[binascii.hexlify(arg).decode()] = arg
 
         def try_auto_literal(value: Any):
             if value in args:
